@@ -40,6 +40,10 @@ fn style_tag(s: &Style) -> String {
     format!("{}|{}|{}", bold as u8, fill, nf)
 }
 const STYLE_TAGS: [&str; 3] = ["0||", "1||", "0|FFFFFF00|0.00"];
+fn style_idx(s: &Style) -> u8 {
+    let t = style_tag(s);
+    STYLE_TAGS.iter().position(|x| *x == t).map(|i| i as u8).unwrap_or(255)
+}
 
 fn range_rect(r: &Range) -> Rect {
     let c1 = r.get_coordinate_start_col().map(|c| *c.get_num()).unwrap_or(0);
@@ -111,8 +115,9 @@ pub fn dump_sheet(ws: &Worksheet) -> SheetDump {
         }
         coords.push(("rowdim", Rect::new(num, 1, num, 1)));
         let h = *r.get_height();
-        if *r.get_custom_height() || *r.get_hidden() || h != 0.0 {
-            if view.rows.insert(num, DimSet { size_bits: h.to_bits(), hidden: *r.get_hidden() }).is_some() {
+        let st = style_idx(r.get_style());
+        if *r.get_custom_height() || *r.get_hidden() || h != 0.0 || st != 0 {
+            if view.rows.insert(num, DimSet { size_bits: h.to_bits(), hidden: *r.get_hidden(), style: st }).is_some() {
                 anomalies.push(("rowdim-duplicated", "rowdim", format!("two row table entries for row {}", num)));
             }
         } else {
@@ -120,12 +125,12 @@ pub fn dump_sheet(ws: &Worksheet) -> SheetDump {
         }
     }
     // column table (a list)
-    let mut cols: Vec<(u32, f64, bool)> = ws.get_column_dimensions().iter().map(|c| (*c.get_col_num(), *c.get_width(), *c.get_hidden())).collect();
-    cols.sort_by(|a, b| (a.0, a.1.to_bits(), a.2).cmp(&(b.0, b.1.to_bits(), b.2)));
-    for (num, w, hidden) in cols {
+    let mut cols: Vec<(u32, f64, bool, u8)> = ws.get_column_dimensions().iter().map(|c| (*c.get_col_num(), *c.get_width(), *c.get_hidden(), style_idx(c.get_style()))).collect();
+    cols.sort_by(|a, b| (a.0, a.1.to_bits(), a.2, a.3).cmp(&(b.0, b.1.to_bits(), b.2, b.3)));
+    for (num, w, hidden, st) in cols {
         coords.push(("coldim", Rect::new(1, num, 1, num)));
-        if w != DEFAULT_COL_WIDTH || hidden {
-            if view.cols.insert(num, DimSet { size_bits: w.to_bits(), hidden }).is_some() {
+        if w != DEFAULT_COL_WIDTH || hidden || st != 0 {
+            if view.cols.insert(num, DimSet { size_bits: w.to_bits(), hidden, style: st }).is_some() {
                 anomalies.push(("coldim-duplicated", "coldim", format!("two column table entries with settings for column {}", num)));
             }
         } else {
@@ -239,6 +244,10 @@ struct SheetSpec {
     cells: Vec<CellSpec>,
     rows: Vec<(u32, f64, bool)>,
     cols: Vec<(u32, f64, bool)>,
+    /// (row, style index): the row DIMENSION has a style of its own (new cells of that row inherit it; cells that are
+    /// moved, copied or set there keep their own)
+    row_styles: Vec<(u32, usize)>,
+    col_styles: Vec<(u32, usize)>,
     merges: Vec<Rect>,
     comments: Vec<(u32, u32, &'static str)>,
     cfs: Vec<(i32, Vec<Rect>)>,
@@ -291,6 +300,12 @@ fn build_real_sheet(ws: &mut Worksheet, sp: &SheetSpec) {
         col.set_width(*w);
         col.set_hidden(*hidden);
     }
+    for (r, st) in &sp.row_styles {
+        ws.get_row_dimension_mut(r).set_style(make_style(*st));
+    }
+    for (c, st) in &sp.col_styles {
+        ws.get_column_dimension_by_number_mut(c).set_style(make_style(*st));
+    }
     for m in &sp.merges {
         ws.add_merge_cells(m.a1());
     }
@@ -333,10 +348,16 @@ fn build_model_sheet(name: &str, sp: &SheetSpec) -> RefSheet {
         m.cells.insert((c.r, c.c), RefCell { value, kind: kind.to_string(), formula: c.formula.unwrap_or("").to_string(), style: STYLE_TAGS[c.style].to_string(), link: c.link.map(|s| s.to_string()) });
     }
     for (r, h, hidden) in &sp.rows {
-        m.rows.insert(*r, DimSet { size_bits: h.to_bits(), hidden: *hidden });
+        m.rows.insert(*r, DimSet { size_bits: h.to_bits(), hidden: *hidden, style: 0 });
     }
     for (c, w, hidden) in &sp.cols {
-        m.cols.insert(*c, DimSet { size_bits: w.to_bits(), hidden: *hidden });
+        m.cols.insert(*c, DimSet { size_bits: w.to_bits(), hidden: *hidden, style: 0 });
+    }
+    for (r, st) in &sp.row_styles {
+        m.rows.entry(*r).or_insert(DimSet { size_bits: 0f64.to_bits(), hidden: false, style: 0 }).style = *st as u8;
+    }
+    for (c, st) in &sp.col_styles {
+        m.cols.entry(*c).or_insert(DimSet { size_bits: DEFAULT_COL_WIDTH.to_bits(), hidden: false, style: 0 }).style = *st as u8;
     }
     m.merges = sp.merges.clone();
     for (r, c, t) in &sp.comments {
@@ -374,6 +395,8 @@ fn other_sheet_spec() -> SheetSpec {
         cells: vec![cs(1, 1).t("o-A1").l("https://example.com/o1"), cs(2, 2).t("o-B2").st(1), cs(4, 3).f("PI()").st(2), cs(5, 1).n(42.0), cs(3, 4).t("o-D3")],
         rows: vec![(3, 22.5, false), (5, 31.0, true)],
         cols: vec![(2, 15.0, false), (4, 3.5, true)],
+        row_styles: vec![(3, 1), (6, 2)],
+        col_styles: vec![(2, 2), (6, 1)],
         merges: vec![rc("B3:C4")],
         comments: vec![(2, 2, "o-note-B2"), (5, 4, "o-note-D5")],
         cfs: vec![(7, vec![rc("A2:B3")])],
@@ -412,12 +435,14 @@ fn seed_specs(seed: usize) -> [SheetSpec; 2] {
                     cells.push(x);
                 }
             }
-            SheetSpec { cells, rows: vec![(2, 30.0, false), (4, 12.5, false)], cols: vec![(2, 20.0, false), (4, 5.0, true)], ..Default::default() }
+            SheetSpec { cells, rows: vec![(2, 30.0, false), (4, 12.5, false)], cols: vec![(2, 20.0, false), (4, 5.0, true)], row_styles: vec![(3, 1), (4, 2), (5, 1)], col_styles: vec![(1, 2), (2, 1), (5, 2)], ..Default::default() }
         }
         2 => SheetSpec {
             cells: vec![cs(1, 1).t("a-A1"), cs(2, 2).t("a-B2").l("https://example.com/b2"), cs(3, 3).n(7.0).l("https://example.com/c3").st(1), cs(5, 3).t("a-C5"), cs(2, 4).t("a-D2").st(2), cs(6, 5).f("1+1")],
             rows: vec![(2, 18.0, false), (5, 40.0, true)],
             cols: vec![(3, 11.0, false)],
+            row_styles: vec![(3, 2), (5, 1)],
+            col_styles: vec![(1, 1), (3, 2)],
             merges: vec![rc("A1:B2"), rc("C3:C5"), rc("B2:D2")],
             comments: vec![(1, 1, "note-A1"), (4, 3, "note-C4"), (2, 4, "note-D2")],
             cfs: vec![(1, vec![rc("A1:B3"), rc("D4:D6")]), (2, vec![rc("C2")]), (4, vec![rc("C:D")]), (5, vec![rc("3:4"), rc("F:F")])],
@@ -427,6 +452,8 @@ fn seed_specs(seed: usize) -> [SheetSpec; 2] {
             cells: vec![cs(1, 1).t("g-A1"), cs(1, MAXC).t("g-XFD1").st(1), cs(MAXR, 1).n(9.0), cs(MAXR, MAXC).t("g-XFD1048576").l("https://example.com/last")],
             rows: vec![(MAXR, 14.0, false)],
             cols: vec![(MAXC, 9.5, false)],
+            row_styles: vec![],
+            col_styles: vec![],
             merges: vec![rc("XFC1048575:XFD1048576")],
             comments: vec![(MAXR, MAXC, "note-last")],
             cfs: vec![(3, vec![rc("XFD1048575:XFD1048576")])],
